@@ -82,7 +82,7 @@ Proof.
   - (* OUnforce *)
     destruct (unforce_ok (length (objs s)) 0 s G) as (s' & E & G' & K'). rewrite E. cbn [bind].
     eexists _, _. split; [reflexivity|]. auto.
-  - (* XNew *) exact (x_new_ok s d G (eqb_bound _ _ Hg ltac:(lia))).
+  - (* XNew *) exact (x_new_ok s KCxx d G (eqb_bound _ _ Hg ltac:(lia))).
   - (* XAssign *) exact (x_assign_ok s s0 d G (eqb_bound _ _ Hg0 ltac:(lia))).
   - (* XCopy *) exact (x_copy_ok s s0 d G (eqb_bound _ _ Hg1 ltac:(lia))).
   - (* XMove *) exact (x_move_ok s s0 d G (eqb_bound _ _ Hg0 ltac:(lia))).
@@ -92,6 +92,10 @@ Proof.
   - (* XSetInst *) exact (x_move_ok s s0 d G (eqb_bound _ _ Hg0 ltac:(lia))).
   - (* XDrop *)
     destruct (p_unref_ok s d G) as (s' & E & G' & K' & _). eexists _, _. split; [exact E|]. auto.
+  - (* XGen *) exact (x_new_ok s KXGen d G (eqb_bound _ _ Hg ltac:(lia))).
+  - (* XClone *)
+    destruct (kind_is_spec s _ _ Hg1) as (o & x & S & _). rewrite S.
+    exact (x_clone_ok s o d s0 G S (is_none_true _ Hg0) (eqb_bound _ _ Hg2 ltac:(lia))).
 Qed.
 
 Lemma Good_clear s : Good s -> Good (clear_log s).
